@@ -88,7 +88,8 @@ def run(pid, tier, seed):
     os.chmod(exe, 0o755)
     tzdirs = [None, "", tzdir, os.path.join(fx, "no_such_dir")]
     tzs = [None, "", "X", ":X", "localtime", ":localtime", "Nope/Missing", ":", "::X", "Fixed/UTC+02:00:00", abs_syd]
-    lts = [None, abs_syd, os.path.join(fx, "missing"), "X", ""]
+    # (LOCALTIME is used verbatim: a leading ':' belongs to the name)
+    lts = [None, abs_syd, os.path.join(fx, "missing"), "X", "", ":" + abs_syd, ":X", "file:X"]
     envs = []
     for td in tzdirs:
         envs.append((td, None, None))
